@@ -8,6 +8,7 @@ import BufrModel.Drv.State
 import BufrModel.Drv.BitsOp
 import BufrModel.Drv.PathOp
 import BufrModel.Drv.CoderOp
+import BufrModel.Drv.ColParseOp
 import BufrModel.Drv.ScriptOp
 import BufrModel.Drv.SectionsOp
 open Lean Bufr.Drv
@@ -33,6 +34,7 @@ def statefulOps : List (String × (DrvState → Json → J (DrvState × Json))) 
   ("dec-data", opDecData) ::
   ("enc-data", opEncData) ::
   ("gen-data", opGenData) ::
+  ("col-parse", opColParse) ::
   []
 
 def dispatch (st : DrvState) (j : Json) : J (DrvState × Json) := do
